@@ -125,6 +125,11 @@ def exh_monitor(ix, rep, mon, matrix=None, rule='R-EXH'):
                         bad = True
                     else:
                         want = '.%s_time.' % mon.time
+                        opname = meth[len('visit'):]
+                        expect = (opname[len('Timed'):] + 'TimedOperation') if opname.startswith('Timed') else opname + 'Operation'
+                        if ent.name != expect:
+                            rep.fail('R-LAYER', where, sym, slot, 'handler %s builds a %s; the operation of this operator is %s' % (meth, ent.name, expect), st.lineno)
+                            bad = True
                         if want not in ent.module.name:
                             rep.fail('R-LAYER', where, sym, slot,
                                      'the %s-time online visitor constructs %s from %s: an operation of the other '
